@@ -420,6 +420,37 @@ func TestGovcReplayBlockScoping(t *testing.T) {
 			return
 		}
 	}
+	// the same check text in two blocks: it holds in the block that defines the fact and
+	// must be evaluated again, and fail, in the block that does not (both orders); the
+	// authority facts leave spare capacity in the fact slice (several sizes)
+	for nAuth := 1; nAuth <= 9; nAuth++ {
+		for _, definingFirst := range []bool{true, false} {
+			pub, priv, _ := ed25519.GenerateKey(rand.Reader)
+			b := NewBuilder(priv)
+			for i := 0; i < nAuth; i++ {
+				b.AddAuthorityFact(Fact{Predicate: Predicate{Name: "right", IDs: []Term{Integer(int64(i))}}})
+			}
+			tok, _ := b.Build()
+			for k := 0; k < 2; k++ {
+				bb := tok.CreateBlock()
+				if (k == 0) == definingFirst {
+					bb.AddFact(scope("one"))
+				}
+				bb.AddCheck(checkScope("one"))
+				tok, _ = tok.Append(rand.Reader, bb.Build())
+			}
+			a, err := tok.Authorizer(pub, WithWorldOptions(datalog.WithMaxDuration(10*time.Second)))
+			if err != nil {
+				t.Fatalf("authorizer: %v", err)
+			}
+			a.AddPolicy(DefaultAllowPolicy)
+			if err := a.Authorize(); err == nil {
+				fmt.Printf("REPRODUCED: %d authority facts; two blocks carry 'check if scope(\"one\")' and only one of them (the %s) defines scope(\"one\"): the token is accepted, the other block's check must fail in its own scope\n", nAuth, map[bool]string{true: "first", false: "second"}[definingFirst])
+				t.Fail()
+				return
+			}
+		}
+	}
 	fmt.Println("NOT-REPRODUCED: block checks see exactly the authority facts and their own block's facts")
 }
 
